@@ -123,11 +123,12 @@ class AbstractWalkModelDiGraph(ABC):
                 if edge not in self.edge_upper_bounds:
                     utils.logger.critical(f"{__name__}: Missing max_edge_repetition in max_edge_repetition_dict for edge {edge}")
                     raise ValueError(f"Missing max_edge_repetition for edge {edge}")
-        # We set to 1 in edge_upper_bounds if the edge is not inside an SCC of self.G,
+        # We lower to 1 in edge_upper_bounds if the edge is not inside an SCC of self.G,
         # because these edges cannot be traversed more than 1 times by any walk
+        # (a smaller bound given by the caller stays: as documented, 0 forbids the edge)
         for edge in self.G.edges():
             if not self.G.is_scc_edge(edge[0], edge[1]):
-                self.edge_upper_bounds[edge] = 1
+                self.edge_upper_bounds[edge] = min(1, self.edge_upper_bounds[edge])
 
         self.subset_constraints = copy.deepcopy(subset_constraints)
         if self.subset_constraints is not None:
